@@ -72,82 +72,82 @@ def _lit(ctype, v):
     return '(%s)(%d)' % (ctype, v)
 
 
-def driver_source(calls):
-    """calls: list of dict(spec=Spec, scalars={}, arrays={name: dict(values=[], cap=int)}, share={argname: bufname})
-    buffers with the same bufname are shared between calls (pipelines). Prints one JSON line per call."""
+def driver_source(calls, bufs):
+    """calls: [dict(cname, args=[('buf', name) | ('lit', ctype, value) | ('expr', c_expression) | ('ptrs', ctype, [names])])]
+    bufs: ordered {name: dict(ctype, cap=int | c expression string, values=[...])}; a buffer is malloc'ed (exact size)
+    just before the first call that uses it, so capacities may refer to outputs of earlier calls.
+    Prints one JSON line per call: error fields and the contents of every buffer allocated so far."""
     out = ['#include <cstdio>', '#include <cstdlib>', '#include <cstring>', '#include <cmath>', '#include <cinttypes>',
-           '#include "awkward/kernels.h"', 'extern "C" {']
-    seen = set()
-    out.append('}')
+           '#include "awkward/kernels.h"']
     out.append('template <typename T> void dump(const char* name, T* p, long n) { printf("\\"%s\\": [", name); '
                'for (long i = 0; i < n; i++) { double d = (double)p[i]; '
                'if (std::isnan(d)) printf("%s\\"nan\\"", i ? "," : ""); else if (std::isinf(d)) printf("%s\\"%sinf\\"", i ? "," : "", d < 0 ? "-" : ""); '
                'else if ((T)0.5 != (T)0) printf("%s%.17g", i ? "," : "", d); else printf("%s%lld", i ? "," : "", (long long)p[i]); } printf("]"); }')
     out.append('int main() {')
-    declared = {}
+    declared = []
+
+    def declare(name):
+        if name in declared:
+            return
+        b = bufs[name]
+        ct = b['ctype']
+        cap = b['cap']
+        capc = str(max(0, cap)) if isinstance(cap, int) else '(%s)' % cap
+        out.append('  long cap_%s = %s; if (cap_%s < 0) cap_%s = 0; if (cap_%s > 100000) { printf("{\\"skip\\": \\"capacity\\"}\\n"); return 0; }' % (name, capc, name, name, name))
+        out.append('  %s* %s = (%s*)malloc(cap_%s * sizeof(%s));' % (ct, name, ct, name, ct))
+        vals = b.get('values', [])
+        fill = b.get('fill', 0)
+        out.append('  for (long i = 0; i < cap_%s; i++) %s[i] = %s;' % (name, name, _lit(ct, fill)))
+        for i, v in enumerate(vals):
+            out.append('  if (%d < cap_%s) %s[%d] = %s;' % (i, name, name, i, _lit(ct, v)))
+        declared.append(name)
+
     for ci, c in enumerate(calls):
-        spec = c['spec']
         argv = []
-        for a in spec.args:
-            if a.depth == 0:
-                argv.append(_lit(a.ctype, c['scalars'][a.name]))
-            elif a.depth == 1:
-                bn = c.get('share', {}).get(a.name, 'c%d_%s' % (ci, a.name))
-                if bn not in declared:
-                    info = c['arrays'][a.name]
-                    cap = max(0, int(info['cap']))
-                    out.append('  %s* %s = (%s*)malloc(%d * sizeof(%s));' % (a.ctype, bn, a.ctype, cap, a.ctype))
-                    vals = info.get('values', [])
-                    for i in range(cap):
-                        v = vals[i] if i < len(vals) else 0
-                        out.append('  %s[%d] = %s;' % (bn, i, _lit(a.ctype, v)))
-                    declared[bn] = (a.ctype, cap)
-                argv.append(bn)
-            else:
-                info = c['arrays'][a.name]
-                names = []
-                for j, inner in enumerate(info['inner']):
-                    bn = 'c%d_%s_%d' % (ci, a.name, j)
-                    cap = max(0, int(inner['cap']))
-                    out.append('  %s* %s = (%s*)malloc(%d * sizeof(%s));' % (a.ctype, bn, a.ctype, cap, a.ctype))
-                    for i in range(cap):
-                        v = inner.get('values', [])[i] if i < len(inner.get('values', [])) else 0
-                        out.append('  %s[%d] = %s;' % (bn, i, _lit(a.ctype, v)))
-                    declared[bn] = (a.ctype, cap)
-                    names.append(bn)
-                pn = 'c%d_%s' % (ci, a.name)
-                out.append('  %s** %s = (%s**)malloc(%d * sizeof(%s*));' % (a.ctype, pn, a.ctype, max(1, len(names)), a.ctype))
-                for j, bn in enumerate(names):
-                    out.append('  %s[%d] = %s;' % (pn, j, bn))
+        for a in c['args']:
+            if a[0] == 'buf':
+                declare(a[1]); argv.append(a[1])
+            elif a[0] == 'lit':
+                argv.append(_lit(a[1], a[2]))
+            elif a[0] == 'expr':
+                argv.append(a[1])
+            elif a[0] == 'ptrs':
+                for n in a[2]:
+                    declare(n)
+                pn = 'pp%d_%d' % (ci, len(argv))
+                out.append('  %s** %s = (%s**)malloc(%d * sizeof(%s*));' % (a[1], pn, a[1], max(1, len(a[2])), a[1]))
+                for j, n in enumerate(a[2]):
+                    out.append('  %s[%d] = %s;' % (pn, j, n))
                 argv.append(pn)
-        out.append('  { struct Error e = %s(%s);' % (spec.name, ', '.join(argv)))
+            else:
+                raise ValueError(a)
+        out.append('  { struct Error e = %s(%s);' % (c['cname'], ', '.join(argv)))
         out.append('    printf("{\\"call\\": %d, \\"err\\": %%s%%s%%s, \\"identity\\": %%lld, \\"attempt\\": %%lld", e.str ? "\\"" : "", e.str ? e.str : "null", e.str ? "\\"" : "", (long long)e.identity, (long long)e.attempt);' % ci)
         out.append('    fflush(stdout); }')
         out.append('  printf(", \\"bufs\\": {");')
-        first = True
-        for bn, (ct, cap) in declared.items():
-            out.append('  %sdump("%s", %s, %d);' % ('' if first else 'printf(", "); ', bn, bn, cap))
-            first = False
+        for k, bn in enumerate(declared):
+            out.append('  %sdump("%s", %s, cap_%s);' % ('' if k == 0 else 'printf(", "); ', bn, bn, bn))
         out.append('  printf("}}\\n"); fflush(stdout);')
     out.append('  return 0; }')
     return '\n'.join(out)
 
 
-def run_driver(calls, timeout=20):
+def run_calls(calls, bufs, timeout=20):
     """-> dict(status=ok|sanitizer|timeout|crash, results=[per-call json], log=str)"""
     srcs = []
     for c in calls:
-        rel = kspec.source_of(c['spec'].name)
+        rel = kspec.source_of(c['cname'])
         if rel not in srcs:
             srcs.append(rel)
     ku = 'src/cpu-kernels/kernel-utils.cpp'
     if ku not in srcs:
         srcs.append(ku)
-    exe = build.compile_driver(driver_source(calls), srcs, sanitize=True)
-    env = dict(os.environ, ASAN_OPTIONS='detect_leaks=0:abort_on_error=0:exitcode=86', UBSAN_OPTIONS='print_stacktrace=1:halt_on_error=1:exitcode=87')
+    exe = build.compile_driver(driver_source(calls, bufs), srcs, sanitize=True)
+    env = dict(os.environ, ASAN_OPTIONS='detect_leaks=0:abort_on_error=0:exitcode=86:allocator_may_return_null=1',
+               UBSAN_OPTIONS='print_stacktrace=1:halt_on_error=1:exitcode=87')
     try:
         r = subprocess.run([exe], capture_output=True, text=True, timeout=timeout, env=env, errors='replace')
-    except subprocess.TimeoutExpired as e:
+    except subprocess.TimeoutExpired:
         return dict(status='timeout', results=[], log='timeout after %ss' % timeout)
     results = []
     for ln in r.stdout.splitlines():
@@ -162,3 +162,22 @@ def run_driver(calls, timeout=20):
     else:
         status = 'crash'
     return dict(status=status, results=results, log=r.stderr[-3000:], returncode=r.returncode)
+
+
+def run_driver(calls, timeout=20):
+    """compatibility wrapper (C13): calls = [dict(spec, scalars, arrays={name: dict(cap, values)})]"""
+    ncalls, bufs = [], {}
+    for ci, c in enumerate(calls):
+        args = []
+        for a in c['spec'].args:
+            if a.depth == 0:
+                args.append(('lit', a.ctype, c['scalars'][a.name]))
+            elif a.depth == 1:
+                bn = 'c%d_%s' % (ci, a.name)
+                info = c['arrays'][a.name]
+                bufs[bn] = dict(ctype=a.ctype, cap=int(info['cap']), values=info.get('values', []))
+                args.append(('buf', bn))
+            else:
+                raise ValueError('nested list argument')
+        ncalls.append(dict(cname=c['spec'].name, args=args))
+    return run_calls(ncalls, bufs, timeout)
